@@ -419,6 +419,14 @@ func errPropagated(c *Ctx, rule, k string, fn *ssa.Function, ci ssa.CallInstruct
 	succ := map[*ssa.Return]bool{}
 	for _, r := range SuccessReturns(fn) {
 		succ[r] = true
+		// wrapping helper idiom: `return fail(err, "...")` / `return wrap(err)`
+		if call, ok := RetVal(r, ei).(*ssa.Call); ok {
+			for _, a := range call.Call.Args {
+				if fs[a] {
+					succ[r] = false
+				}
+			}
+		}
 	}
 	edges := NilEdges(fn, fs)
 	if len(edges) == 0 {
